@@ -199,11 +199,19 @@ Theorem C03_formats_equivalent :
   forall (T : Type),
     (forall (f : format) (fs : list (@field T)), decode f (encode f fs) = fs) /\
     (forall (O : NumOps T) (f : format) c s, r_read O f c (r_write O f c s) = m_load (restraint_machine O) c (m_save (restraint_machine O) c s)) /\
-    (forall (O : NumOps T) c s, r_read O Text c (r_write O Text c s) = r_read O Binary c (r_write O Binary c s)).
+    (forall (O : NumOps T) c s, r_read O Text c (r_write O Text c s) = r_read O Binary c (r_write O Binary c s)) /\
+    (* the fields of every modelled object survive either format: ABMD (refValue, stoppingValue, forceConstant,
+       decreasing), a variable with an extended coordinate (x, extended_x, extended_v), the module's step, a grid
+       written as the list of its values (histogram, ABF samples), the restraint's optional keywords *)
+    (forall (f : format),
+      (forall (d : T) (v : T * (T * T * bool)), a_of_fields d (decode f (encode f (a_fields v))) = v) /\
+      (forall (d : T) (v : T * T * T), x_of_fields d (decode f (encode f (x_fields v))) = v) /\
+      (forall k, m_of_fields (T:=T) (decode f (encode f (m_fields k))) = k) /\
+      (forall k vals, grid_of_fields (T:=T) k (decode f (encode f (grid_field k vals))) = Some vals) /\
+      (forall v : rsaved (T:=T), r_of_fields (decode f (encode f (r_fields v))) = v)).
 Proof.
-  intros T. split; [exact (@decode_encode T)|]. split.
-  - intros O f c s. exact (r_read_write O f c s).
-  - intros O c s. exact (r_formats_agree O c s).
+  intros T. split; [exact (@decode_encode T)|]. split; [intros O f c s; exact (r_read_write O f c s)|].
+  split; [intros O c s; exact (r_formats_agree O c s)|]. exact (@objects_read_write T).
 Qed.
 Print Assumptions C03_formats_equivalent.
 
